@@ -82,17 +82,23 @@ pub fn shrink(tape: &[u32], mut fails: impl FnMut(&[u32]) -> bool, budget: usize
     }
     loop {
         let mut improved = false;
-        // delete chunks
-        for &k in &[16usize, 8, 4, 2, 1] {
+        // delete chunks, large ones first (a tape with a long value has tens of thousands of entries)
+        let mut k = (cur.len() / 2).max(1);
+        loop {
             let mut i = 0;
             while i + k <= cur.len() {
+                if calls >= budget { break; }
                 let mut cand = cur.clone();
                 cand.drain(i..i + k);
                 if try_it(&cand, &mut calls) { cur = cand; improved = true; } else { i += k; }
             }
+            if k == 1 || calls >= budget { break; }
+            k = if k > 16 { k / 2 } else { k - 1 }.max(1);
+            if k < 16 && ![8usize, 4, 2, 1].contains(&k) { k = [8usize, 4, 2, 1].iter().cloned().find(|x| *x < k).unwrap_or(1); }
         }
         // zero entries
         for i in 0..cur.len() {
+            if calls >= budget { break; }
             if cur[i] != 0 {
                 let mut cand = cur.clone();
                 cand[i] = 0;
